@@ -434,6 +434,59 @@ def check_corruptions(ir, rng, out):
             raise V("corruption-accepted:" + kind, path=list(path), order="ab" if order[0] is a else "ba")
 
 
+def check_input_only_leaf(ir, rng, out):
+    """A leaf that every connected interface only samples (In on all sides) is not wired, but its widths and
+    initial values must still agree: equal -> accepted, width or initial-value mismatch -> ConnectionError."""
+    from amaranth.hdl import Module
+    from amaranth.lib import wiring
+    from amaranth.lib.wiring import In, Out
+    S = build_sig(ir)
+    base = list(S.flatten(S.create(path=("p",))))
+    if not base:
+        return
+    def only_outputs(sig):      # (declared members, including those of zero-length arrays, which have no leaves)
+        return all((mb.flow == Out) if mb.is_port else only_outputs(mb.signature) for mb in sig.members.values())
+    all_out = only_outputs(S)
+    w = rng.randrange(1, 9)
+    init = rng.getrandbits(w)
+    nested = rng.random() < 0.4
+    for kind in ("equal", "width", "init"):
+        w2, init2 = w, init
+        if kind == "width":
+            w2 = w + rng.choice([-1, 1]) if w > 1 else w + 1
+            init2 = init & ((1 << w2) - 1)
+            if init2 != init:
+                init2 = init = 0
+        elif kind == "init":
+            init2 = init ^ (1 << rng.randrange(w))
+        k = 3 if all_out and rng.random() < 0.5 else 2     # (a third party needs S to be all outputs)
+
+        def side(j, ww, ii):
+            mon = In(ww, init=ii)
+            members = {"d": Out(S) if j == 0 else In(S), "mon": Out(wiring.Signature({"m": mon})) if nested else mon}
+            return wiring.Signature(members).create(path=(f"s{j}",))
+        objs = [side(0, w, init)] + [side(j, w2 if j == k - 1 else w, init2 if j == k - 1 else init) for j in range(1, k)]
+        out["hist"]["input-only-leaf:" + kind] = out["hist"].get("input-only-leaf:" + kind, 0) + 1
+        orders = list(itertools.permutations(range(k)))
+        for order in orders:
+            m = Module()
+            out["evaluations"] += 1
+            try:
+                wiring.connect(m, *[objs[i] for i in order])
+                ok = True
+            except wiring.ConnectionError as e:
+                ok = False
+                msg = str(e)
+            except Exception as e:
+                if exc_origin(e) != "repo":
+                    raise
+                raise V("input-only-leaf-wrong-exception:" + kind, exception=repr(e)[:200], order=list(order))
+            if kind == "equal" and not ok:
+                raise V("legal-connect-refused:input-only-leaf", message=msg[:300], order=list(order), k=k)
+            if kind != "equal" and ok:
+                raise V("corruption-accepted:" + kind + ":input-only-leaf", order=list(order), k=k, widths=[w, w2], inits=[init, init2], nested=nested)
+
+
 def check_metadata(ir, out):
     from amaranth.lib import wiring
     S = build_sig(ir)
@@ -492,7 +545,8 @@ def run_shard(spec):
                  ("metadata", lambda: check_metadata(ir, out)),
                  ("connect2", lambda: check_connect(ir, rng, out, 2)),
                  ("constants", lambda: check_constants(ir, rng, out)),
-                 ("corruptions", lambda: check_corruptions(ir, rng, out))]
+                 ("corruptions", lambda: check_corruptions(ir, rng, out)),
+                 ("input-only-leaf", lambda: check_input_only_leaf(ir, rng, out))]
         if n % 4 == 0:
             ir3 = gen_sig(rng, rng.randrange(0, 3), all_out=True)
             steps.append(("connect-k", lambda: check_connect(ir3, rng, out, rng.choice([3, 4]))))
@@ -534,6 +588,7 @@ def replay(rec):
     hits = []
     for label, fn in (("structure", lambda: check_structure(ir, out)), ("connect2", lambda: check_connect(ir, rng, out, 2)),
                       ("corruptions", lambda: [check_corruptions(ir, rng, out) for _ in range(20)]),
+                      ("input-only-leaf", lambda: [check_input_only_leaf(ir, rng, out) for _ in range(20)]),
                       ("constants", lambda: [check_constants(ir, rng, out) for _ in range(20)]),
                       ("metadata", lambda: check_metadata(ir, out))):
         try:
